@@ -13,8 +13,24 @@ def pyval(W, s):
     return bytes(s) if W == 1 else "".join(map(chr, s))
 
 
+class Garbage(Exception):
+    """the implementation returned an object that cannot be a str/bytes of valid code points"""
+
+
 def cps(W, v):
-    return list(v) if isinstance(v, (bytes, bytearray)) else [ord(c) for c in v]
+    """the code points of a returned bytes/str; anything else (or a str Python itself cannot walk, or code points
+    outside 0..0x10FFFF: uninitialised memory) raises Garbage - a recorded outcome, never a harness failure"""
+    try:
+        out = list(v) if isinstance(v, (bytes, bytearray)) else [ord(c) for c in v]
+    except Exception as e:
+        raise Garbage("garbage:" + type(e).__name__)
+    if any((not isinstance(c, int)) or c < 0 or c > 0x10FFFF for c in out):
+        raise Garbage("garbage:codepoint")
+    return out
+
+
+def outcome_name(e):
+    return str(e) if isinstance(e, Garbage) else "raised:" + type(e).__name__
 
 
 class TextLab:
@@ -113,30 +129,35 @@ class TextLab:
         try:
             return self.get(a, W), cps(W, ffi.string(a)), ""
         except Exception as e:
-            return self.get(a, W), [], "string:" + type(e).__name__
+            return self.get(a, W), [], "string:" + outcome_name(e)
 
     # ---- readers
     def view(self, T, units, isarr):
+        """isarr: True (the array), False (a pointer to it) or "field" (the array as a struct field)"""
+        if isarr == "field":
+            p = self.ffi.new(self.struct(T, len(units)) + " *")
+            self.put(p.a, self.W(T), units)
+            return p, p.a
         a = self.array(T, units)
         return (a, a) if isarr else (a, self.ffi.cast(T + " *", a))
 
     def string(self, T, units, isarr, maxlen):
-        keep, v = self.view(T, units, isarr)
         try:
+            keep, v = self.view(T, units, isarr)
             r = self.ffi.string(v) if maxlen < 0 else self.ffi.string(v, maxlen)
+            return cps(self.W(T), r), ""
         except Exception as e:
-            return None, type(e).__name__
-        return cps(self.W(T), r), ""
+            return None, outcome_name(e)
 
     def unpack(self, T, units, isarr, n):
-        keep, v = self.view(T, units, isarr)
         try:
+            keep, v = self.view(T, units, isarr)
             r = self.ffi.unpack(v, n)
+            if isinstance(r, list):               # signed/unsigned char: list of ints
+                return [x & 0xFF for x in r], ""
+            return cps(self.W(T), r), ""
         except Exception as e:
-            return None, type(e).__name__
-        if isinstance(r, list):               # signed/unsigned char: list of ints
-            return [x & 0xFF for x in r], ""
-        return cps(self.W(T), r), ""
+            return None, outcome_name(e)
 
     def items(self, T, units):
         """list(p): every unit converted on its own"""
